@@ -172,6 +172,21 @@ func (m *Machine) stub(fn *ssa.Function, args []Value) (Value, bool) {
 			return Str{make([]*Term, 1)[:0]}, true
 		}
 		return Tuple{Slice{}, m.newErr("stubbed decoder on oversized input", nil)}, true
+	case name == "time.Now":
+		// the clock: base instant (shared by all calls of the path, seconds in [10^9, 4*10^9)) plus a fresh
+		// non-negative drift below one hour per call; nanoseconds fresh.  Encoded as time.now() does without
+		// the monotonic reading: wall = nsec, ext = seconds since year 1, loc = nil (UTC).
+		m.called["time.Now"] = true
+		base := m.nowBase()
+		drift := m.fresh(64, "nowdrift")
+		nsec := m.fresh(64, "nownsec")
+		m.sol().Assert(m.tt.Cmp("bvult", drift, m.tt.Const(64, 3600)))
+		m.sol().Assert(m.tt.Cmp("bvult", nsec, m.tt.Const(64, 1000000000)))
+		t := m.newNode(3)
+		t.elems[0] = nsec
+		t.elems[1] = m.tt.Bin("bvadd", m.tt.Bin("bvadd", base, drift), m.tt.Const(64, 62135596800))
+		t.elems[2] = Ptr{}
+		return t, true
 	case name == "crypto/sha256.Sum256":
 		m.called["sha256.Sum256"] = true
 		cells := m.idealHash(m.cellsOf(args[0]))
@@ -469,4 +484,14 @@ func (m *Machine) signStub(alg string, sk, msg Value) Value {
 	v := m.sigValid(true, alg, skc[32:], m.cellsOf(msg), sig)
 	m.sol().Assert(v)
 	return Slice{node, 0, 64, 64}
+}
+
+// nowBase is the symbolic Unix time (seconds) of the path's clock.
+func (m *Machine) nowBase() *Term {
+	if m.nowT == nil {
+		m.nowT = m.tt.Var(64, "nowbase")
+		m.sol().Assert(m.tt.Cmp("bvule", m.tt.Const(64, 1000000000), m.nowT))
+		m.sol().Assert(m.tt.Cmp("bvult", m.nowT, m.tt.Const(64, 4000000000)))
+	}
+	return m.nowT
 }
